@@ -51,11 +51,14 @@ func cost(p PointRec, alt int) int {
 func Explore(opt Options, body func() interface{}, check func(x *Exec) error, stopAtFirst bool) (Stats, []Violation) {
 	st := Stats{Bound: opt.Bound}
 	var viols []Violation
+	// an item is the prefix base[:n]+[alt] (materialised only when it is run: siblings share base)
 	type item struct {
-		prefix []int
-		used   int // preemptions used by prefix
+		base   []int
+		n, alt int
+		used   int // preemptions used by the prefix
+		root   bool
 	}
-	stack := []item{{nil, 0}}
+	stack := []item{{root: true}}
 	first := true
 	for len(stack) > 0 {
 		if (opt.MaxExecs > 0 && st.Executions >= opt.MaxExecs) || (!opt.Deadline.IsZero() && time.Now().After(opt.Deadline)) {
@@ -64,9 +67,15 @@ func Explore(opt Options, body func() interface{}, check func(x *Exec) error, st
 		}
 		it := stack[len(stack)-1]
 		stack = stack[:len(stack)-1]
-		x := RunOnce(it.prefix, opt.Horizon, body)
+		var prefix []int
+		if !it.root {
+			prefix = make([]int, it.n+1)
+			copy(prefix, it.base[:it.n])
+			prefix[it.n] = it.alt
+		}
+		x := RunOnce(prefix, opt.Horizon, body)
 		if x.Diverged != "" {
-			st.EngineErrors = append(st.EngineErrors, fmt.Sprintf("replay divergence at prefix %v: %s", it.prefix, x.Diverged))
+			st.EngineErrors = append(st.EngineErrors, fmt.Sprintf("replay divergence at prefix %v: %s", prefix, x.Diverged))
 			if len(st.EngineErrors) > 5 {
 				break
 			}
@@ -75,17 +84,14 @@ func Explore(opt Options, body func() interface{}, check func(x *Exec) error, st
 		// children: deviations after the prefix
 		var kids []item
 		used := it.used
-		for i := len(it.prefix); i < len(x.Points); i++ {
+		for i := len(prefix); i < len(x.Points); i++ {
 			p := x.Points[i]
 			for alt := 1; alt < p.N; alt++ {
 				c := used + cost(p, alt)
 				if c > opt.Bound {
 					continue
 				}
-				np := make([]int, i+1)
-				copy(np, x.Choices[:i])
-				np[i] = alt
-				kids = append(kids, item{np, c})
+				kids = append(kids, item{base: x.Choices, n: i, alt: alt, used: c})
 			}
 			used += cost(p, p.Chosen) // always 0: default choice after the prefix
 		}
